@@ -128,6 +128,9 @@ func foreignPeer(rec *vr.Rec, reps int, seed int64) {
 		rec.Count("foreign_peer_transfers_"+dir, 1)
 		if dir == "upload" {
 			tok := []byte{0xc4, byte(rep), byte(rep >> 8)}
+			stale := (rep/8)%2 == 1
+			staleAt := 2 + rep%3
+			c["stale_block_of_another_body_injected"] = stale
 			off, cur, curSzx := 0, P, peer
 			finalCode := uint8(0)
 			steps := 0
@@ -145,6 +148,26 @@ func foreignPeer(rec *vr.Rec, reps int, seed int64) {
 				bv := uint32(num<<4) | uint32(curSzx)
 				if more {
 					bv |= 8
+				}
+				if stale && steps == staleAt && off >= 2*cur {
+					// a stale block from an earlier, different body under the same token (a delayed datagram of an earlier
+					// exchange): lower block number, other content, possibly flagged final. It must not become part of this body.
+					sn := rep % (off / cur)
+					other := bodyOf(uint32(91000+rep), size)
+					sl := sn * cur
+					sh := sl + cur/2 + 1
+					if sh > size {
+						sh = size
+					}
+					sv := uint32(sn<<4) | uint32(curSzx)
+					if rep%4 >= 2 {
+						sv |= 8
+					}
+					smid := uint16(2000 + steps)
+					sbefore := len(sent())
+					inject(ref.Msg{Type: 0, Code: 2, MID: smid, Token: tok, Opts: []ref.Opt{{ID: 11, Val: []byte("up")}, {ID: 12, Val: ref.Uint(42)}, {ID: 27, Val: ref.Uint(sv)}}, Payload: other[sl:sh]})
+					sim.WaitFor(300*time.Millisecond, func() bool { return len(sent()) > sbefore })
+					rec.Count("foreign_peer_stale_blocks_injected", 1)
 				}
 				mid := uint16(3000 + steps)
 				req := ref.Msg{Type: 0, Code: 2, MID: mid, Token: tok, Opts: []ref.Opt{{ID: 11, Val: []byte("up")}, {ID: 12, Val: ref.Uint(42)}, {ID: 27, Val: ref.Uint(bv)}}, Payload: body[off:hi]}
